@@ -74,6 +74,11 @@ def canon(tag, v, env):
         return "u" + (str(int(v)) if float(v).is_integer() else float(v).hex())
     if tag == "numlist":
         return "L(" + ",".join(canon("number", x, env) for x in v) + ")"
+    if tag == "decimal":         # Decimal / float / int in one un-coerced field: equal numbers are one value however they are written
+        d = v if isinstance(v, Decimal) else Decimal(repr(v)) if isinstance(v, float) else Decimal(v)
+        return "D" + canon_num(d)
+    if tag == "optint5":
+        return "n" if v is None else canon("int", v, env)
     if tag == "numnest":
         return "N(" + ",".join(canon("numlist", x, env) for x in v) + ")"
     if tag == "ecall":
@@ -99,12 +104,15 @@ GEN_SPECS = {
     "GD": ("fresh", None, [("m", "module", None), ("k", "int", 0)]),
     "GX": ("fresh", None, [("c", "complex", None), ("k", "int", 0)]),     # a value the naming serialiser may refuse: calls may raise
     "GM": ("fresh", None, [("n", "number", None), ("v", "numlist", "LIST"), ("w", "numnest", "LIST")]),
+    "GQ": ("fresh", None, [("d", "decimal", None)]),                      # Decimal-typed values: 1, 1.0, 1E+3, 1000, 0.5, 0.50
+    "GO": ("fresh", None, [("t", "optint5", 5), ("k", "int", 0)]),        # an Optional field whose default is NOT None: an explicit None is a value
+    "GL": ("select", None, [("a", "int", None)]),                         # a selector between pre-defined cells: hands back a Module made outside it (one per value)
     "GE": ("fresh", None, [("c", "ecall", None), ("k", "int", 0)]),      # an ExternalModuleCall-valued parameter: like-named external modules of two Python modules
     "GG": ("fresh", None, [("g", "gen", None), ("k", "int", 0)]),        # a Generator-valued parameter: like-named generators of different Python modules
     "GU": ("uncached", None, [("a", "int", None)]),                       # enable_cache=False, result depends on more than its parameters
 }
 MAYRAISE = {"GX"}
-KINDS = {g: ("pass" if s[0] == "sat" else s[0]) for g, s in GEN_SPECS.items()}
+KINDS = {g: ("pass" if s[0] == "sat" else "fresh" if s[0] == "select" else s[0]) for g, s in GEN_SPECS.items()}
 
 
 _FOREIGN = []
@@ -152,7 +160,8 @@ def make_env(h):
     env["NP"] = NP
     dt = {"int": int, "float": float, "str": str, "optint": Optional[int], "optstr": Optional[str], "enum": Color,
           "prefixed": h.Prefixed, "scalar": h.Scalar, "nested": NP, "module": h.Instantiable, "complex": complex,
-          "number": Union[int, float], "numlist": Tuple[Union[int, float], ...], "gen": h.Generator, "numnest": tuple, "ecall": h.ExternalModuleCall}
+          "number": Union[int, float], "numlist": Tuple[Union[int, float], ...], "gen": h.Generator, "numnest": tuple, "ecall": h.ExternalModuleCall,
+          "decimal": Union[Decimal, float, int], "optint5": Optional[int]}
     env["ecalls"] = foreign_ext_calls()
     env["etokens"] = {id(c): k % 3 for k, c in enumerate(env["ecalls"])}        # (the fourth call equals the first: same external module, same parameters)
     env["gunits"] = foreign_generators()
@@ -162,6 +171,11 @@ def make_env(h):
     env["units"] = [m1, m2, h.Module(name="Unit3"), h.Module(name="Unit4")]
     for k, u in enumerate(env["units"]):
         env["tokens"][id(u)] = k
+    env["cells"] = []
+    for k in range(3):
+        c = h.Module(name=f"Cell{k}")
+        c.add(h.Signal(name="s", width=k + 1))
+        env["cells"].append(c)
     from hdl21.prefix import Prefixed, Prefix
 
     def mk_ptype(gname, fields):
@@ -206,6 +220,8 @@ def make_env(h):
                 env["log"].append([gname, key_of(gname, params)])
                 if kind == "pass":
                     return subcall(callee, a=params.a, b="p")
+                if kind == "select":
+                    return env["cells"][params.a]
                 if kind == "sat" and params.a > 2:
                     return subcall(gname, a=2)
                 m = h.Module()
@@ -242,6 +258,8 @@ def concretize(env, step):
                 kw[f] = env["gunits"][kw[f]]
             if f in kw and tag == "ecall":
                 kw[f] = env["ecalls"][kw[f]]
+            if f in kw and tag == "decimal" and isinstance(kw[f], str):
+                kw[f] = Decimal(kw[f][1:])
             if f in kw and tag == "numnest":
                 kw[f] = tuple(tuple(x) for x in kw[f])
             if f in kw and tag in ("prefixed", "scalar") and isinstance(kw[f], list):
@@ -257,6 +275,10 @@ def replay(args):
     env = make_env(h)
     events = []
     seq = 0
+    if tid % 4 == 3:
+        # ... and in every fourth the pre-defined cells a selecting generator hands back were elaborated on their own beforehand
+        for c in env["cells"]:
+            h.elaborate(c)
     for step in hist:
         seq += 1
         g, kw = concretize(env, step)
@@ -274,6 +296,14 @@ def replay(args):
             ev["mod"] = env["token"](m)
             env["modkind"].setdefault(id(m), KINDS[g])
             ev["name"] = m.name
+            if tid % 2:
+                # in every second history each returned module is elaborated right away: what later calls hand along, or find cached, has
+                # then been through elaboration - its name must not care
+                try:
+                    h.elaborate(m)
+                    ev["name"] = m.name
+                except Exception:
+                    pass
         except Exception as ex:
             ev["raised"] = True
             ev["exc"] = f"{type(ex).__name__}: {str(ex)[:100]}"
@@ -302,7 +332,7 @@ STRS = ["x", "x b=y", "y b=z", "z", "None", "", "a=1", "x" * 119, "x" * 120, "x"
 
 
 def rich_step(rnd):
-    g = rnd.choice(["GS", "GS", "GB", "GC", "GD", "GA", "GA", "GP", "GN", "GX", "GU", "GM", "GM", "GG", "GG", "GT", "GT", "GF", "GF", "GE", "GE"])
+    g = rnd.choice(["GS", "GS", "GB", "GC", "GD", "GA", "GA", "GP", "GN", "GX", "GU", "GM", "GM", "GG", "GG", "GT", "GT", "GF", "GF", "GE", "GE", "GQ", "GQ", "GO", "GO", "GL", "GL"])
     form = rnd.choice(["kw", "inst"])
     if g == "GS":
         kw = {"a": rnd.choice(STRS)}
@@ -330,6 +360,12 @@ def rich_step(rnd):
             kw["v"] = tuple(rnd.choice([[1, 2.5], [1.0, 2.5], [1], [1.0], [0.0], [-0.0], [0]]))
         if rnd.random() < 0.4:
             kw["w"] = rnd.choice([[[0, 0], [1, 1.0]], [[0.0, 0], [1.0, 1]], [[0, 0], [1, 1]], [[1, 2.5]], [[1.0, 2.5]]])
+    elif g == "GQ":
+        kw = {"d": rnd.choice(["D1.0", "D1", 1, 1.0, "D1E+3", "D1000", 1000, "D0.5", "D0.50", 0.5, "D0.1", "D2"])}
+    elif g == "GO":
+        kw = rnd.choice([{"t": None}, {"t": 5}, {}, {"t": 7}, {"t": None, "k": 1}])
+    elif g == "GL":
+        kw = {"a": rnd.choice([0, 1, 2])}
     elif g == "GE":
         kw = {"c": rnd.choice([0, 1, 2, 3])}
     elif g == "GF":
